@@ -193,6 +193,9 @@ def make_value(kind: str, cls: str, pk: Picker):
     return pk.get(kind, cls)
 
 
+SAVE_PATHS = ("direct", "txn", "direct+phase", "txn+phase")
+
+
 def strict_eq(a, b) -> bool:
     """Equality of JSON-representable values without Python's bool/int/float coercions."""
     if dataclasses.is_dataclass(a) and dataclasses.is_dataclass(b):
@@ -384,6 +387,7 @@ class CaseRun:
             elif o == "store_stage":
                 fresh_w, after_ss = op["w"], True
                 stg = store.retrieve_stage(self.stage_ids[0])
+                phase_before = stg.status.name
                 for f, tok in (op["set"] or {}).items():
                     setattr(stg, f, self.val("st1", "st", f, tok))
                 for f, tok in (op["mem_only"] or {}).items():       # assigned in memory; store_stage must not persist them
@@ -399,7 +403,17 @@ class CaseRun:
                         nt.stage = stg
                         stg.tasks.append(nt)
                         self.task_ids[1].append(nt.id)
-                store.store_stage(stg)
+                # The register model gives store_stage ONE meaning; the code has four save paths for it (direct /
+                # inside store.transaction(), each with or without the phase check `expected_phase` = the stored
+                # status, which always matches here).  The path rotates with (case, example, operation).
+                via = SAVE_PATHS[(getattr(self, "via_base", 0) + k) % len(SAVE_PATHS)]
+                self.covered.add(("save_path", via, ""))
+                kw = {"expected_phase": phase_before} if via.endswith("+phase") else {}
+                if via.startswith("txn"):
+                    with store.transaction(None) as txn:
+                        txn.store_stage(stg, **kw)
+                else:
+                    store.store_stage(stg, **kw)
 
     # ---- queue mode
     def run_queue_case(self, hist: list[dict]) -> None:
@@ -475,6 +489,7 @@ def _job(args) -> dict:
             out["cases"] += 1
             for e in range(examples):
                 run = CaseRun(_ENV, Picker(pools[e], random.Random(f"{hseed}/{os.path.basename(path)}/{i}/{e}")))
+                run.via_base = i + e
                 try:
                     if mode == "stage":
                         try:
@@ -675,6 +690,9 @@ def run(pid: str, tier: str, seed: int) -> int:
         for t, fs in tables["msg"].items():
             for f in fs:
                 want_cov |= {(t, f["n"], c) for c in tables["classes"][f["k"]]}
+        paths = sorted(x[1] for x in agg["covered"] if x[0] == "save_path")
+        if paths != sorted(SAVE_PATHS):
+            rep.machinery_failure(f"store_stage save paths exercised: {paths}, wanted all of {SAVE_PATHS}")
         missing = sorted(want_cov - agg["covered"])
         if missing:
             rep.machinery_failure(f"vacuity: {len(missing)} (field, class) pairs of the specification were never replayed, e.g. {missing[:5]}")
@@ -710,7 +728,7 @@ def run(pid: str, tier: str, seed: int) -> int:
             "samples": agg["samples"], "cases_enumerated": total_cases, "cases_replayed": agg["cases"],
             "values_written_and_compared": agg["values"], "hypothesis_examples_per_case": examples, "large_value_chars": large,
             "ulid_task_pairs_created_within_one_millisecond": agg["same_ms"],
-            "field_class_pairs_covered": len(agg["covered"] & want_cov), "field_class_pairs_in_spec": len(want_cov),
+            "store_stage_save_paths": paths, "field_class_pairs_covered": len(agg["covered"] & want_cov), "field_class_pairs_in_spec": len(want_cov),
             "operations_replayed": agg["ops"],
             "tlc_states": states, "mismatch_groups": len(groups), "mismatches": len(agg["mism"]),
             "fields_covered": {"workflow": len(tables["wf"]), "stage": len(tables["st"]) + 2, "task": len(tables["tk"]) + 2,
